@@ -8,7 +8,7 @@ PROP_FILE = "Properties/C28.v"
 TRUSTED = ["requests are observed through Context::with_resolver (recording resolver) and, for the signer's time-stamp URL "
            "(which the SDK contacts with a fresh default Context), through a listener on 127.0.0.1; a request to a hard-coded "
            "address through a fresh default resolver would be invisible (none exists in the source: srcfacts counts the http_resolve sites)",
-           "asset kinds are represented by fixtures (CA.jpg, legacy.mp4 = OCSP responder named / nothing stapled, ocsp.jpg = stapled) "
+           "asset kinds are represented by fixtures (CA.jpg, legacy.mp4 = OCSP responder named / nothing stapled, ocsp.jpg = two manifests with stapled but unusable responses); no fixture carries a usable stapled response, so the kind AEmbeddedStapled is covered by the theorems and the source tie only "
            "and by assets built with set_remote_url / set_no_embed"]
 ASSUMPTIONS = ["crate features as built by the harness: default + file_io + fetch_remote_manifests (via c2pa-c-ffi) + add_thumbnails",
                "CAWG identity / did:web resolution and remote (settings) signers are outside this property's settings list and are not exercised"]
@@ -22,7 +22,7 @@ KINDS = {
     "ARemoteEmbedded": {"kind": "built", "remote_url": URL, "no_embed": False, "format": "image/jpeg"},
     "ANone": {"kind": "fixture", "name": "no_manifest.jpg", "format": "image/jpeg"},
     "AEmbeddedAia": {"kind": "fixture", "name": "legacy.mp4", "format": "video/mp4"},
-    "AEmbeddedStapled": {"kind": "fixture", "name": "ocsp.jpg", "format": "image/jpeg"},
+    "AEmbeddedStapledUnusable": {"kind": "fixture", "name": "ocsp.jpg", "format": "image/jpeg"},
     "ARemoteOnlyAia": {"kind": "fixture", "name": "cloud.jpg", "format": "image/jpeg", "url": CLOUD_URL, "sidecar": "cloud_manifest.c2pa"},
 }
 # further representatives of the same kinds (thorough tier and corpus)
@@ -49,8 +49,19 @@ def facts(ctx):
         raise TieBroken("srcfacts: claim.rs check_ocsp_status no longer derives OcspFetchPolicy from verify.ocsp_fetch")
     oc = common.strip_tests(common.src("sdk/src/crypto/cose/ocsp.rs"))
     body = common.fn_body(oc, r"pub fn\s+check_ocsp_status\s*\(", "cose check_ocsp_status")
-    if not re.search(r"OcspFetchPolicy::FetchAllowed\s*=>", body) or not re.search(r"match get_ocsp_der\(sign1\)\s*\{\s*Some", body):
-        raise TieBroken("srcfacts: cose check_ocsp_status: stapled-first / FetchAllowed structure changed")
+    # stapled response first; it returns only when usable and conclusive, otherwise falls through to the fetch policy
+    m1 = re.search(r"if let Some\(ocsp_response_der\) = get_ocsp_der\(sign1\)\s*\{", body)
+    m2 = re.search(r"match fetch_policy\s*\{\s*OcspFetchPolicy::FetchAllowed\s*=>", body)
+    if not m1 or not m2 or m2.start() < m1.start():
+        raise TieBroken("srcfacts: cose check_ocsp_status: stapled-first / fall-through / FetchAllowed structure changed")
+    staple = body[m1.start():m2.start()]
+    rets = re.findall(r"return\s+(Ok|Err)\(", staple)
+    if rets != ["Err", "Ok"] or "if let Ok(ocsp_response) = result" not in staple \
+            or "SIGNING_CREDENTIAL_REVOKED" not in staple or "SIGNING_CREDENTIAL_NOT_REVOKED" not in staple:
+        raise TieBroken(f"srcfacts: cose check_ocsp_status: the stapled block no longer returns exactly on revoked / not revoked ({rets})")
+    cm = common.fn_body(cl, r"pub fn\s+has_ocsp_vals\s*\(", "Claim::has_ocsp_vals")
+    if "get_ocsp_der(&sign1).is_some()" not in cm:
+        raise TieBroken("srcfacts: Claim::has_ocsp_vals no longer tests the presence of a stapled response")
     lab = common.fn_body(st, r"pub fn\s+get_manifest_labels_for_ocsp\s*\(", "get_manifest_labels_for_ocsp")
     if "settings.builder.certificate_status_fetch" not in lab or "certificate_status_should_override" not in lab:
         raise TieBroken("srcfacts: get_manifest_labels_for_ocsp no longer gated by builder.certificate_status_fetch")
@@ -227,7 +238,7 @@ def run(ctx):
         "evaluations": len(cases),
         "distinct_nontrivial": len(set((c["op"], c["akind"], tuple(c["cfg"]), c["tsa"], c["serve_manifest"], c["asset"].get("name")) for c in cases
                                        if any(c["cfg"]) or c["tsa"] or c["akind"] in ("ARemoteOnly", "ARemoteEmbedded"))),
-        "rule": "the whole cube settings(remote_manifest_fetch, ocsp_fetch, certificate_status_fetch) x 7 asset kinds x "
+        "rule": "the whole cube settings(remote_manifest_fetch, ocsp_fetch, certificate_status_fetch) x 7 exercisable asset kinds x "
                 "{read, ingredient import, import+sign without TSA, import+sign with TSA URL} (224 points) + seeded other representatives "
                 "of the kinds and a resolver answering 404; non-trivial = some setting on, a TSA URL, or a remote reference present",
         "distribution": stats,
